@@ -192,6 +192,142 @@ func checkC17(c *Ctx) {
 		return ""
 	}
 
+	// ---- R17h pooled memory does not outlive its return to the pool
+	r.Rule("R17h", "no emitted function returns (or stores) memory derived from a sync.Pool value that the same function hands back to the pool: the next Get of a concurrent call overwrites it while it is still in use", 1)
+	{
+		nFuncs, nPools := 0, 0
+		reported := map[string]bool{}
+		for _, uf := range files {
+			pools := map[string]bool{}
+			for _, d := range uf.f.Decls {
+				gd, ok := d.(*ast.GenDecl)
+				if !ok || gd.Tok != token.VAR {
+					continue
+				}
+				for _, sp := range gd.Specs {
+					vs := sp.(*ast.ValueSpec)
+					isPool := vs.Type != nil && strings.HasSuffix(types.ExprString(vs.Type), "sync.Pool")
+					for _, v := range vs.Values {
+						if strings.Contains(types.ExprString(v), "sync.Pool{") || strings.HasPrefix(strings.TrimPrefix(types.ExprString(v), "&"), "sync.Pool") {
+							isPool = true
+						}
+					}
+					if isPool {
+						for _, nm := range vs.Names {
+							pools[nm.Name] = true
+						}
+					}
+				}
+			}
+			for _, d := range uf.f.Decls {
+				fd, ok := d.(*ast.FuncDecl)
+				if !ok || fd.Body == nil {
+					continue
+				}
+				nFuncs++
+				if len(pools) == 0 {
+					continue
+				}
+				// values taken from a pool and handed back in this function
+				got := map[string]bool{}
+				put := map[string]bool{}
+				ast.Inspect(fd.Body, func(nd ast.Node) bool {
+					switch x := nd.(type) {
+					case *ast.AssignStmt:
+						for i, rhs := range x.Rhs {
+							e := ast.Unparen(rhs)
+							if ta, ok := e.(*ast.TypeAssertExpr); ok {
+								e = ast.Unparen(ta.X)
+							}
+							if call, ok := e.(*ast.CallExpr); ok {
+								if sel, ok := call.Fun.(*ast.SelectorExpr); ok && sel.Sel.Name == "Get" {
+									if id, ok := ast.Unparen(sel.X).(*ast.Ident); ok && pools[id.Name] && i < len(x.Lhs) {
+										if l, ok := x.Lhs[i].(*ast.Ident); ok {
+											got[l.Name] = true
+										}
+									}
+								}
+							}
+						}
+					case *ast.CallExpr:
+						if sel, ok := x.Fun.(*ast.SelectorExpr); ok && sel.Sel.Name == "Put" && len(x.Args) == 1 {
+							if id, ok := ast.Unparen(sel.X).(*ast.Ident); ok && pools[id.Name] {
+								if a := rootIdentOf(x.Args[0]); a != nil {
+									put[a.Name] = true
+								}
+							}
+						}
+					}
+					return true
+				})
+				tainted := map[string]bool{}
+				for v := range got {
+					if put[v] {
+						tainted[v] = true
+					}
+				}
+				if len(tainted) == 0 {
+					continue
+				}
+				nPools++
+				mentions := func(e ast.Node) bool {
+					hit := false
+					ast.Inspect(e, func(m ast.Node) bool {
+						if id, ok := m.(*ast.Ident); ok && tainted[id.Name] {
+							hit = true
+						}
+						return !hit
+					})
+					return hit
+				}
+				for round := 0; round < 4; round++ {
+					ast.Inspect(fd.Body, func(nd ast.Node) bool {
+						if as, ok := nd.(*ast.AssignStmt); ok {
+							src := false
+							for _, rhs := range as.Rhs {
+								if mentions(rhs) {
+									src = true
+								}
+							}
+							if src {
+								for _, l := range as.Lhs {
+									if id, ok := l.(*ast.Ident); ok && id.Name != "_" && id.Name != "err" {
+										tainted[id.Name] = true
+									}
+								}
+							}
+						}
+						return true
+					})
+				}
+				ast.Inspect(fd.Body, func(nd ast.Node) bool {
+					ret, ok := nd.(*ast.ReturnStmt)
+					if !ok {
+						return true
+					}
+					for _, res := range ret.Results {
+						if call, isCall := ast.Unparen(res).(*ast.CallExpr); isCall {
+							// a copy made by the callee (append([]byte(nil), b...), bytes.Clone, string(b)) is not the pooled memory
+							fn := types.ExprString(call.Fun)
+							if fn == "bytes.Clone" || fn == "slices.Clone" || fn == "string" || (fn == "append" && len(call.Args) > 0 && !mentions(call.Args[0])) {
+								continue
+							}
+						}
+						if mentions(res) {
+							k := fmt.Sprintf("*%s %s returns pooled memory", uf.root.Suffix, holeFree(fd.Name.Name))
+							if !reported[k] {
+								reported[k] = true
+								r.Bad("R17h", k, genPos(uf, ret.Pos()), "the emitted "+holeFree(fd.Name.Name)+" takes a buffer from a package-level sync.Pool, hands it back (Put) when it returns, and returns "+types.ExprString(res)+", which still aliases that buffer: a concurrent call that Gets the same buffer overwrites the bytes while the first call is still sending them — one call transmits another call's request", nil)
+							}
+						}
+					}
+					return true
+				})
+			}
+		}
+		r.OKd("R17h", "emitted Go functions inspected for pooled memory that escapes its Put", "", map[string]any{"functions": nFuncs, "functions_with_get_and_put": nPools, "escapes": len(reported)})
+	}
+
 	// ---- R17a
 	seenVar := map[string]bool{}
 	for _, uf := range files {
